@@ -38,6 +38,7 @@ import Mathlib.Tactic.NormNum
 import Mathlib.Tactic.Positivity
 import Mathlib.Tactic.FieldSimp
 import Mathlib.Tactic.Tauto
+import Mathlib.Tactic.LinearCombination
 import VectorModel.Lemmas.Prim
 
 namespace VR
@@ -964,5 +965,126 @@ example : 0 < planar_rho.eval .rhophi 1 0 ∧ 0 < Real.pi / 4 ∧ Real.pi / 4 < 
   have := Real.pi_pos
   refine ⟨by simp only [d_planar_rho]; norm_num, by linarith, by linarith, ?_⟩
   intro h; linarith
+
+/-! ## Remarks on the boundary: all thresholds are strict
+
+With `tolerance = 0` nothing is lightlike / perpendicular (not even an exactly null vector or exactly
+orthogonal vectors), and no Cartesian pair is parallel or antiparallel (not even `v` with itself). -/
+
+theorem c13_is_lightlike_tol_zero (k0 : Az) (k1 : Lon) (k2 : Tmp) (a1 a2 a3 a4 : ℝ) :
+    ¬ lorentz_is_lightlike.eval k0 k1 k2 0 a1 a2 a3 a4 := by
+  rw [c13_is_lightlike_iff_dot, abs_zero]
+  exact not_lt.2 (abs_nonneg _)
+
+theorem c13_spatial_is_perpendicular_tol_zero (k0 : Az) (k1 : Lon) (k2 : Az) (k3 : Lon) (a0 a1 a2 b0 b1 b2 : ℝ) :
+    ¬ spatial_is_perpendicular.eval k0 k1 k2 k3 0 a0 a1 a2 b0 b1 b2 := by
+  rw [c13_spatial_is_perpendicular_iff, abs_zero, zero_mul, zero_mul]
+  exact not_lt.2 (abs_nonneg _)
+
+theorem c13_planar_is_perpendicular_tol_zero (k0 k1 : Az) (a0 a1 b0 b1 : ℝ) :
+    ¬ planar_is_perpendicular.eval k0 k1 0 a0 a1 b0 b1 := by
+  rw [c13_planar_is_perpendicular_iff, abs_zero, zero_mul, zero_mul]
+  exact not_lt.2 (abs_nonneg _)
+
+theorem c13_spatial_is_parallel_cartesian_tol_zero (x1 y1 z1 x2 y2 z2 : ℝ) :
+    ¬ spatial_is_parallel.eval .xy .z .xy .z 0 x1 y1 z1 x2 y2 z2 := by
+  rw [c13_spatial_is_parallel_iff, abs_zero, sub_zero, one_mul]
+  have := (abs_le.mp (c13_spatial_abs_dot_le_cartesian x1 y1 z1 x2 y2 z2)).2
+  exact not_lt.2 this
+
+theorem c13_spatial_is_antiparallel_cartesian_tol_zero (x1 y1 z1 x2 y2 z2 : ℝ) :
+    ¬ spatial_is_antiparallel.eval .xy .z .xy .z 0 x1 y1 z1 x2 y2 z2 := by
+  rw [c13_spatial_is_antiparallel_iff, abs_zero]
+  have := (abs_le.mp (c13_spatial_abs_dot_le_cartesian x1 y1 z1 x2 y2 z2)).1
+  intro h
+  linarith
+
+/-! ## 1'. Causal classification in every coordinate system follows `t² - mag²`
+
+The spatial self-product equals the generated `mag2` of the same key, so for the six `t` keys the
+Minkowski self-product is `t² - mag2`, and for the six `tau` keys with `0 ≤ tau` it is `tau²`. -/
+
+/-- For `theta` keys the stored polar angle must not be a singular input of `tan` / `1/sin`. -/
+theorem c13_spatial_dot_self (k0 : Az) (k1 : Lon) (a0 a1 a2 : ℝ)
+    (hθ : k1 = .theta → Real.sin a2 ≠ 0 ∧ Real.cos a2 ≠ 0) :
+    spatial_dot.eval k0 k1 k0 k1 a0 a1 a2 a0 a1 a2 = spatial_mag2.eval k0 k1 a0 a1 a2 := by
+  have half : (0.5 : ℝ) = 1 / 2 := by norm_num
+  induction k1
+  · -- z keys
+    induction k0
+    · simp only [spatial_dot.eval, spatial_dot.xy_z_xy_z, d_spatial_mag2]; ring
+    · simp only [spatial_dot.eval, spatial_dot.rhophi_z_rhophi_z, d_spatial_mag2, sub_self, Real.cos_zero]; ring
+  · -- theta keys
+    obtain ⟨hs, hc⟩ := hθ rfl
+    induction k0
+    · simp only [spatial_dot.eval, spatial_dot.xy_theta_xy_theta, spatial_dot.xy_z_xy_z, d_planar_x, d_planar_y,
+        d_spatial_z, d_spatial_mag2, P.nanToNum_eq, d_planar_rho, d_planar_rho2]
+      have hs2 : √(a0 ^ 2 + a1 ^ 2) ^ 2 = a0 ^ 2 + a1 ^ 2 := Real.sq_sqrt (by positivity)
+      rw [Real.tan_eq_sin_div_cos]
+      field_simp
+      linear_combination (Real.cos a2 ^ 2) * hs2 + (a0 ^ 2 + a1 ^ 2) * Real.sin_sq_add_cos_sq a2
+    · simp only [spatial_dot.eval, spatial_dot.rhophi_theta_rhophi_theta, d_spatial_mag2, sub_self, Real.cos_zero]
+      rw [Real.tan_eq_sin_div_cos]
+      field_simp
+      linear_combination (a0 ^ 2) * Real.sin_sq_add_cos_sq a2
+  · -- eta keys
+    have hu : Real.exp (-a2) ≠ 0 := (Real.exp_pos _).ne'
+    have hv : Real.exp a2 = (Real.exp (-a2))⁻¹ := by rw [Real.exp_neg, inv_inv]
+    induction k0
+    · simp only [spatial_dot.eval, spatial_dot.xy_eta_xy_eta, spatial_dot.xy_z_xy_z, d_planar_x, d_planar_y,
+        d_spatial_z, d_spatial_mag2, d_planar_rho, d_planar_rho2, half]
+      have hs2 : √(a0 ^ 2 + a1 ^ 2) ^ 2 = a0 ^ 2 + a1 ^ 2 := Real.sq_sqrt (by positivity)
+      rw [Real.sinh_eq, hv]
+      field_simp
+      linear_combination ((1 - Real.exp (-a2) ^ 2) ^ 2) * hs2
+    · simp only [spatial_dot.eval, spatial_dot.rhophi_eta_rhophi_eta, d_spatial_mag2, sub_self, Real.cos_zero, half]
+      field_simp
+      ring
+
+theorem c13_lorentz_dot_self_t (k0 : Az) (k1 : Lon) (a0 a1 a2 t : ℝ)
+    (hθ : k1 = .theta → Real.sin a2 ≠ 0 ∧ Real.cos a2 ≠ 0) :
+    lorentz_dot.eval k0 k1 .t k0 k1 .t a0 a1 a2 t a0 a1 a2 t = t ^ 2 - spatial_mag2.eval k0 k1 a0 a1 a2 := by
+  have e : lorentz_dot.eval k0 k1 .t k0 k1 .t a0 a1 a2 t a0 a1 a2 t =
+      t * t - spatial_dot.eval k0 k1 k0 k1 a0 a1 a2 a0 a1 a2 := by
+    induction k0 <;> induction k1 <;> rfl
+  rw [e, c13_spatial_dot_self k0 k1 a0 a1 a2 hθ]; ring
+
+theorem c13_lorentz_dot_self_tau (k0 : Az) (k1 : Lon) (a0 a1 a2 tau : ℝ)
+    (hθ : k1 = .theta → Real.sin a2 ≠ 0 ∧ Real.cos a2 ≠ 0) (htau : 0 ≤ tau) :
+    lorentz_dot.eval k0 k1 .tau k0 k1 .tau a0 a1 a2 tau a0 a1 a2 tau = tau ^ 2 := by
+  have e : lorentz_dot.eval k0 k1 .tau k0 k1 .tau a0 a1 a2 tau a0 a1 a2 tau =
+      lorentz_t.eval k0 k1 .tau a0 a1 a2 tau * lorentz_t.eval k0 k1 .tau a0 a1 a2 tau -
+        spatial_dot.eval k0 k1 k0 k1 a0 a1 a2 a0 a1 a2 := by
+    induction k0 <;> induction k1 <;> rfl
+  have h := c13_lorentz_t_tau_sq_of_nonneg k0 k1 a0 a1 a2 tau (fun h => (hθ h).1) htau
+  rw [e, c13_spatial_dot_self k0 k1 a0 a1 a2 hθ, ← sq, h]; ring
+
+/-- Six `t` keys: timelike ⇔ `t² - mag² > |tol|`, spacelike ⇔ `t² - mag² < -|tol|`, lightlike ⇔ `|t² - mag²| < |tol|`. -/
+theorem c13_causal_classes_t_keys (k0 : Az) (k1 : Lon) (tol a0 a1 a2 t : ℝ)
+    (hθ : k1 = .theta → Real.sin a2 ≠ 0 ∧ Real.cos a2 ≠ 0) :
+    (lorentz_is_timelike.eval k0 k1 .t tol a0 a1 a2 t ↔ t ^ 2 - spatial_mag2.eval k0 k1 a0 a1 a2 > |tol|) ∧
+    (lorentz_is_spacelike.eval k0 k1 .t tol a0 a1 a2 t ↔ t ^ 2 - spatial_mag2.eval k0 k1 a0 a1 a2 < -|tol|) ∧
+    (lorentz_is_lightlike.eval k0 k1 .t tol a0 a1 a2 t ↔ |t ^ 2 - spatial_mag2.eval k0 k1 a0 a1 a2| < |tol|) := by
+  rw [c13_is_timelike_iff_dot, c13_is_spacelike_iff_dot, c13_is_lightlike_iff_dot,
+    c13_lorentz_dot_self_t k0 k1 a0 a1 a2 t hθ]
+  exact ⟨Iff.rfl, Iff.rfl, Iff.rfl⟩
+
+/-- Six `tau` keys, `0 ≤ tau`: timelike ⇔ `tau² > |tol|`, lightlike ⇔ `tau² < |tol|`, never spacelike. -/
+theorem c13_causal_classes_tau_keys (k0 : Az) (k1 : Lon) (tol a0 a1 a2 tau : ℝ)
+    (hθ : k1 = .theta → Real.sin a2 ≠ 0 ∧ Real.cos a2 ≠ 0) (htau : 0 ≤ tau) :
+    (lorentz_is_timelike.eval k0 k1 .tau tol a0 a1 a2 tau ↔ tau ^ 2 > |tol|) ∧
+    (lorentz_is_lightlike.eval k0 k1 .tau tol a0 a1 a2 tau ↔ tau ^ 2 < |tol|) ∧
+    ¬ lorentz_is_spacelike.eval k0 k1 .tau tol a0 a1 a2 tau := by
+  rw [c13_is_timelike_iff_dot, c13_is_spacelike_iff_dot, c13_is_lightlike_iff_dot,
+    c13_lorentz_dot_self_tau k0 k1 a0 a1 a2 tau hθ htau, abs_of_nonneg (sq_nonneg tau)]
+  refine ⟨Iff.rfl, Iff.rfl, ?_⟩
+  have := abs_nonneg tol
+  have := sq_nonneg tau
+  intro h; linarith
+
+example : Real.sin (Real.pi / 4) ≠ 0 ∧ Real.cos (Real.pi / 4) ≠ 0 := by
+  rw [Real.sin_pi_div_four, Real.cos_pi_div_four]
+  have : (0 : ℝ) < √2 / 2 := by positivity
+  exact ⟨this.ne', this.ne'⟩
 
 end VR
